@@ -95,11 +95,18 @@ theorem strictAsc_adj_ne (keys : List Bytes) (h : strictAsc keys = true) (a : Na
 /-! ### labels and ranks -/
 
 
-theorem labelIdxOfKey_eq_labelAt (kn : List Nat) (i : Nat) (big : Bool) :
+/-- `getLabelIdxOfKey` is `bmtree.PathOf` whenever a 257-bit node is read at a byte-aligned
+    position (always, in a built trie) -/
+theorem labelIdxOfKey_eq_labelAt (kn : List Nat) (i : Nat) (big : Bool)
+    (hal : big = true → i % 2 = 0) :
     labelIdxOfKey kn i big = labelAt kn i big := by
   unfold labelIdxOfKey labelAt
   by_cases h : i < kn.length
-  · simp [h, List.getD_eq_getElem?_getD]
+  · cases big with
+    | false => simp [h, List.getD_eq_getElem?_getD]
+    | true =>
+      have h0 : i % 2 = 0 := hal rfl
+      simp [h, h0, List.getD_eq_getElem?_getD]
   · simp [h]
 
 theorem labelAt_eq_zero_iff (kn : List Nat) (ws : Nat) (big : Bool) :
@@ -146,7 +153,7 @@ theorem leftChildID_of_label (r : InnerRec) (hp : r.labels.Pairwise (· < ·)) (
 def idStep (pref : Pref) (kn : List Nat) (pos : Nat) : Except Err (Option Nat) :=
   match pref with
   | .stored p =>
-    if pos > kn.length then .error (.panic "slice bounds out of range: key[i>>3:]")
+    if pos / 2 > kn.length / 2 then .error (.panic "slice bounds out of range: key[i>>3:]")
     else if cmpUpto (kn.drop (pos - pos % 2)) p != .eq then .ok none
     else .ok (some (pos - pos % 2 + p.length))
   | .step n => .ok (some (pos + n))
@@ -180,7 +187,7 @@ theorem getIDLoop_inner (v : View) (kn : List Nat) (fuel j pos : Nat) (r : Inner
   | step n => simp only [idStep, idBranch]
   | stored p =>
     simp only [idStep, idBranch]
-    by_cases h1 : pos > kn.length
+    by_cases h1 : pos / 2 > kn.length / 2
     · simp only [h1, if_true]
     · by_cases h2 : (cmpUpto (List.drop (pos - pos % 2) kn) p != Ordering.eq) = true
       · simp only [h1, h2, if_true, if_false]
@@ -205,7 +212,7 @@ theorem idStep_prefOf (opt : Opt) (ks kn : List Nat) (fb ws : Nat) (hfb : fb ≤
   split
   · simp only [idStep]; congr; omega
   · split
-    · have hfl : ¬ fb > kn.length := by omega
+    · have hfl : ¬ fb / 2 > kn.length / 2 := by omega
       have he : fb - fb % 2 ≤ ws := by omega
       have hplen : (storedPrefix ks fb ws).length = ws - (fb - fb % 2) := by
         simp only [storedPrefix, List.length_drop, List.length_take]; omega
@@ -300,7 +307,7 @@ theorem getIDLoop_kept (keys : List Bytes) (keep : List Bool) (t : Trie1) (queue
         omega
       have hch : leftChildID r (labelIdxOfKey (knOf keys i) ws r.big)
           = (((r.firstChild + k : Nat) : Int) - 1, true) := by
-        rw [labelIdxOfKey_eq_labelAt]
+        rw [labelIdxOfKey_eq_labelAt _ _ _ (fun hb => (hbig hb).1)]
         show leftChildID r (labelOf keys ws r.big i) = _
         rw [← hkl, leftChildID_of_label r hpw k hk']
         congr 1; omega
